@@ -5,3 +5,5 @@ RUN.update(C01=props_enc.run_c01, C07=props_enc.run_c07, C08=props_enc.run_c08, 
 RUN.update(C02=props_dec.run_c02, C04=props_dec.run_c04, C05=props_dec.run_c05, C06=props_dec.run_c06, C17=props_dec.run_c17, C18=props_dec.run_c18)
 import props_misc
 RUN.update(C03=props_misc.run_c03, C13=props_misc.run_c13, C14=props_misc.run_c14, C15=props_misc.run_c15, C16=props_misc.run_c16)
+import props_acc
+RUN.update(C11=props_acc.run_c11, C12=props_acc.run_c12)
